@@ -630,9 +630,12 @@ def _case_ragged(ctx, case, checked_out):
     ctx.tally("source", case.get("mode", "ragged-hand") + "/out-of-domain")
     if impl == "index-error":
         ctx.sample({k: case[k] for k in ("kind", "lens", "ent")}, 2)
-    if impl != checked_out:
-        ctx.corr_fail(case, f"gaussian_elimination on ragged rows {case['lens']} {case['ent']}: "
-                            f"impl={impl[:400]} checked model={checked_out[:400]}")
+    # Non-rectangular and empty matrices are OUTSIDE the property's domain: how the code fails or what it returns there
+    # is not fixed by the property, and a behaviour-preserving rewrite may differ (harmless/C13-H raises IndexError on a
+    # ragged input where the original returns a triple - found by running this check against that rewrite).  The
+    # agreement with the checked model is therefore recorded (it validates the model's access order on the unchanged
+    # tree: 'agree' must be ~100 % there), never reported.
+    ctx.tally("ragged_vs_checked_model", "agree" if impl == checked_out else "differ (out of domain: not a failure)")
 
 
 def _case_gauss(ctx, case, model_out, checked_out=None):
